@@ -453,18 +453,20 @@ func (x *Exec) declQuote() {
 
 // declURL: T-url. urlString renders a URL value, urlParse reads one back. The only law assumed:
 // a URL consisting of just an absolute path whose first segment is non-empty survives the round trip.
-func (x *Exec) declURL(st *State) {
-	var ut types.Type
+func (x *Exec) urlType() types.Type {
 	for _, p := range x.P.Pkgs {
 		for _, imp := range p.Types.Imports() {
 			if imp.Path() == "net/url" {
-				ut = imp.Scope().Lookup("URL").Type()
+				return imp.Scope().Lookup("URL").Type()
 			}
 		}
 	}
-	if ut == nil {
-		x.bail("net/url not imported")
-	}
+	x.bail("net/url not imported")
+	return nil
+}
+
+func (x *Exec) declURL(st *State) {
+	ut := x.urlType()
 	s := x.C.sortOf(ut)
 	x.C.decl(fmt.Sprintf("(declare-fun urlString (%s) String)", s))
 	x.C.decl("(declare-fun urlParseOk (String) Bool)")
